@@ -269,9 +269,8 @@ fn convert_to_native_expr(node: &ASTNode) -> Result<Box<Expr>, QueryError> {
         ASTNode::Value(ValueWithSpan {
             value: ref literal, ..
         }) => Expr::Const(get_raw_val(literal)?),
-        ASTNode::Identifier(ref identifier) => {
-            Expr::ColName(strip_quotes(identifier.value.as_ref()))
-        }
+        // sqlparser has already removed the quotes from the identifier's value
+        ASTNode::Identifier(ref identifier) => Expr::ColName(identifier.value.clone()),
         ASTNode::Nested(inner) => *convert_to_native_expr(inner)?,
         ASTNode::Function(f) => match format!("{}", f.name).to_uppercase().as_ref() {
             "TO_YEAR" => match &f.args {
@@ -408,11 +407,12 @@ fn func_arg_to_native_expr(node: &FunctionArg) -> Result<Box<Expr>, QueryError> 
 }
 
 fn strip_quotes(ident: &str) -> String {
-    if ident.starts_with('`') || ident.starts_with('"') {
-        ident[1..ident.len() - 1].to_string()
-    } else {
-        ident.to_string()
+    for quote in ['`', '"'] {
+        if ident.len() >= 2 && ident.starts_with(quote) && ident.ends_with(quote) {
+            return ident[1..ident.len() - 1].to_string();
+        }
     }
+    ident.to_string()
 }
 
 fn map_unary_operator(op: &UnaryOperator) -> Result<Func1Type, QueryError> {
